@@ -28,7 +28,9 @@ TO_ONE = {
 }
 # entity -> collections (name -> target entity)
 TO_MANY = {
-    "post": {"comments": "comment", "tags": "tag"},
+    # Post.labels: a second many-to-many to Tag whose Django declaration carries BOTH a
+    # related_name and a different related_query_name (the reverse side is not navigated)
+    "post": {"comments": "comment", "tags": "tag", "labels": "tag"},
     "author": {"posts": "post", "comments": "comment"},
     "country": {"authors": "author"},
     "tag": {"posts": "post"},
@@ -101,6 +103,8 @@ def canonical_instance():
     cid += 1
     inst["comment"].append({"id": cid, "text": "x", "score": 5, "post_id": None, "author_id": None,
                             "parent_id": 1})
+    ntag = len(inst["tag"])
+    inst["post_labels"] = sorted({(p, 1 + (t + p) % ntag) for p, t in inst["post_tags"] if (p + t) % 3})
     return inst
 
 
@@ -139,6 +143,9 @@ def random_instance(rng):
         if nt:
             for tg in rng.sample(range(1, nt + 1), rng.randint(0, min(3, nt))):
                 inst["post_tags"].append((i + 1, tg))
+            for tg in rng.sample(range(1, nt + 1), rng.randint(0, min(2, nt))):
+                inst.setdefault("post_labels", []).append((i + 1, tg))
+    inst.setdefault("post_labels", [])
     return inst
 
 
@@ -186,6 +193,9 @@ class Graph:
             return target, [c for c in inst["comment"] if c["post_id"] == row["id"]]
         if (entity, rel) == ("post", "tags"):
             ids = [t for p, t in inst["post_tags"] if p == row["id"]]
+            return target, [self.by_id["tag"][i] for i in ids]
+        if (entity, rel) == ("post", "labels"):
+            ids = [t for p, t in inst.get("post_labels", []) if p == row["id"]]
             return target, [self.by_id["tag"][i] for i in ids]
         if (entity, rel) == ("tag", "posts"):
             ids = [p for p, t in inst["post_tags"] if t == row["id"]]
